@@ -327,8 +327,39 @@ class R:
         g.emit("cadd64 %s %d" % (y, self.val(homes, anchors)))
         g.emit("dig64 %s" % x)
 
+    def boundary_episode(self):
+        """range operations whose END (or start) sits exactly on a bucket boundary, with buckets present on both sides"""
+        g, r = self.g, self.r
+        b = r.choice([1, 2, 0x80000000, 0xFFFFFFFF, 3])
+        edge = b << 32
+        x = g.fresh("e")
+        g.emit("new64 %s" % x)
+        vs = [edge - 1, edge - 3, edge - 70000, edge, edge + 1, edge + 65536, edge + B32 - 1]
+        if b < 0xFFFFFFFF:
+            vs += [edge + B32, edge + B32 + 5]
+        g.emit("addmany64 %s %s" % (x, " ".join(str(v) for v in vs if r.random() < 0.85 and v <= MAXV)))
+        if r.random() < 0.3:
+            g.emit("opt64 %s" % x)
+        for s, e in [(edge - r.choice([1, 2, 3, 100, 70000]), edge), (edge - 1, edge), (edge, edge), (edge, edge + r.choice([1, 2, 65536])),
+                     (edge - r.choice([1, 5, 65536]), edge + r.choice([1, 2, 65537])),
+                     (min(MAXV, edge + B32) - r.choice([1, 2, 70000]), min(MAXV, edge + B32))]:
+            for op in r.sample(["sflip64", "flip64", "addr64", "remr64"], 3):
+                g.count("edge64:" + op)
+                if op == "sflip64":
+                    y = g.fresh("f")
+                    g.emit("sflip64 %s %s %d %d" % (y, x, s, e))
+                    g.emit("wf64 %s" % y)
+                    g.emit("card64 %s" % y)
+                else:
+                    z = g.fresh("f")
+                    g.emit("clone64 %s %s" % (z, x))
+                    g.emit("%s %s %d %d" % (op, z, s, e))
+                    g.emit("wf64 %s" % z)
+        g.emit("dig64 %s" % x)
+
     def suite_hist(self, nhist, steps):
         g, r = self.g, self.r
+        self.boundary_episode()
         for _ in range(nhist):
             x = g.fresh("h")
             if r.random() < 0.6:
